@@ -18,9 +18,9 @@ func init() {
 			"distinct_nontrivial counts distinct (row-count vector, set of all-default columns, one-sided pattern, inheritance pattern) signatures",
 		Cases: func(tier string) int {
 			if tier == "thorough" {
-				return 6000
+				return 6000 + len(c10Sizes(tier))
 			}
-			return 480
+			return 480 + len(c10Sizes(tier))
 		},
 		Run: runC10,
 		Assumptions: []string{
@@ -142,15 +142,40 @@ func c10Defaultize(m *sgen.Model, r *core.Rand) (allDefault map[string]bool, sig
 	return force, fmt.Sprintf("forced[%s] onesided=%d inherit=%d", keys, oneSided, inh)
 }
 
+func c10Sizes(tier string) []int {
+	var out []int
+	max := 1100
+	if tier == "thorough" {
+		max = 4200
+	}
+	for _, n := range core.Thresholds(max) {
+		if n >= 60 {
+			out = append(out, n)
+		}
+	}
+	return out
+}
+
 func runC10(c *core.Ctx) {
 	r := c.R
-	m := sgen.Gen(r, sgen.Size{Agencies: 2, Routes: 4, Stops: 10, Transfers: 5, Calendars: 3, CalDates: 4, Shapes: 2, ShapePtsPer: 3, Trips: 5, Freqs: 4, StopTimesPer: 6})
+	sz := sgen.Size{Agencies: 2, Routes: 4, Stops: 10, Transfers: 5, Calendars: 3, CalDates: 4, Shapes: 2, ShapePtsPer: 3, Trips: 5, Freqs: 4, StopTimesPer: 6}
+	sized := false
+	if sizes := c10Sizes(c.Tier); c.Index < len(sizes) {
+		// size sweep: many stops (inheritance over a large forest), everything else small
+		sz = sgen.Size{Agencies: 1, Routes: 2, Stops: sizes[c.Index], Transfers: 2, Calendars: 1, CalDates: 1, Shapes: 1, ShapePtsPer: 2, Trips: 2, Freqs: 1, StopTimesPer: 3, Exact: true}
+		sized = true
+		c.Feature("size-sweep:stops")
+	}
+	m := sgen.Gen(r, sz)
 	force, sig := c10Defaultize(m, r)
 	c.Shape(m.ShapeSig() + " " + sig)
 	explicit := sgen.Tables(m)
 	nVariantsCombo := 6
 	if c.Thorough() {
 		nVariantsCombo = 12
+	}
+	if sized {
+		nVariantsCombo = 2
 	}
 
 	type variant struct {
@@ -163,7 +188,7 @@ func runC10(c *core.Ctx) {
 	modeName := map[int]string{sgen.SpellBlank: "blank", sgen.SpellAbsent: "absent", sgen.SpellMixture: "mixture"}
 	var variants []variant
 	for _, dc := range sgen.DefaultCols {
-		if explicit.Table(dc.File) == nil {
+		if explicit.Table(dc.File) == nil || (sized && dc.File != "stops.txt") {
 			continue
 		}
 		modes := []int{sgen.SpellBlank, sgen.SpellMixture}
